@@ -342,6 +342,55 @@ func c13(r *rand.Rand, tier string, tr *trace.Buf, extra map[string]interface{})
 			}
 		}
 	}
+	// count bytes that DROP at one row while every entry byte they skip over is 0 (single hints at position 0
+	// look like padding): the boundaries must never decrease, at every row including the last
+	{
+		msg := []byte("count drops")
+		base, _ := d.Sign(msg)
+		for row := 1; row < 8; row++ {
+			for _, a := range []int{1, 2, 3} {
+				for _, to := range []int{0, a - 1} {
+					for _, fill := range []int{0, 1} { // entries all 0 / rows before `row` are single hints at 0 and the first row is {0, 9}
+						sig := base
+						h := sig[hintOff:]
+						for i := range h {
+							h[i] = 0
+						}
+						for i := 0; i < 8; i++ {
+							switch {
+							case i < row-1:
+								h[75+i] = byte(a - 1)
+							case i == row-1:
+								h[75+i] = byte(a)
+							default:
+								h[75+i] = byte(to)
+							}
+						}
+						if fill == 1 && a >= 2 && row >= 2 {
+							h[1] = 0
+							h[0] = 0
+							h[75+0] = byte(a - 1) // row 0 holds a-1 entries: {0} or {0, 9}
+							if a == 3 {
+								h[1] = 9
+							}
+						}
+						c, z, hb, rc := dilithium.VerifUnpackSig(sig)
+						e := pEvent{Ev: "sig", Class: "count-drop", Rc: rc, Hint: ints(sig[hintOff:]), BytesD: dg(sig[:]), Z: polys(z[:])}
+						for p := 0; p < 7; p++ {
+							e.ZBytes = append(e.ZBytes, ints(sig[32+640*p:32+640*(p+1)]))
+						}
+						e.RepackD = "rejected"
+						if rc == 0 {
+							if rp, err := dilithium.VerifPackSig(c[:], &z, &hb); err == nil {
+								e.RepackD = dg(rp)
+							}
+						}
+						tr.Emit(e)
+					}
+				}
+			}
+		}
+	}
 	// key layout
 	for q := 0; q < 2; q++ {
 		r.Read(seed[:])
